@@ -543,6 +543,17 @@ pub fn exec_line(sess: &mut Session, line: &str) -> String {
             let cp = cp_by_name(toks[1]).unwrap();
             hex_of_bytes(&cp.encode(&str_of_hex(toks[2]).unwrap()))
         }
+        "@open_bytes" => {
+            // arbitrary bytes into Package::open, then the read API on whatever opens
+            let bytes = bytes_of_hex(toks[1]).unwrap();
+            match msi::Package::open(crate::session::Medium::new(bytes)) {
+                Ok(mut pkg) => {
+                    let _ = crate::session::snapshot(&mut pkg);
+                    "opened".to_string()
+                }
+                Err(e) => format!("err {}", crate::session::kind_name(&e)),
+            }
+        }
         "@fault_sweep" => crate::faults::sweep(toks[1].parse().unwrap(), toks[2], toks[3]),
         "@readonly_close" => {
             // close the current package (which was only read since it was opened) and report
